@@ -535,15 +535,18 @@ def _helper_swallows(project, f, put):
     if not pnodes:
         return None   # nested deeper: not analysed
     pids = {n.id for n in pnodes}
-    # the helper must not return normally without having executed a put
-    if cfg.exit.id in cfg.reachable(cfg.entry.id, avoid=pids):
+    # the helper must not return normally without having executed a put (branches on constant-valued local flags,
+    # e.g. `delivered = False; while not delivered:`, are followed as they can actually go)
+    if cfg.exit.id in cfg.explore_const([(cfg.entry.id, {})], avoid=pids):
         return "helper %s can return normally without putting the item (line %d)" % (tgt.short, tgt.node.lineno)
+    all_states = cfg.explore_const([(cfg.entry.id, {})])
     for pn in pnodes:
         for s_, blk in enclosing_stmts(tgt.node, pn.ast):
             if isinstance(s_, ast.Try) and blk == "body":
                 for n in cfg.nodes:
                     if n.kind == "except" and any(n.ast is h for h in s_.handlers):
-                        if cfg.exit.id in cfg.reachable(n.id, avoid=pids):
+                        starts = [(n.id, dict(fs)) for fs in all_states.get(n.id, {frozenset()})]
+                        if cfg.exit.id in cfg.explore_const(starts, avoid=pids):
                             return ("helper %s swallows a failed put (handler at line %d returns normally without retry)"
                                     % (tgt.short, n.line))
     return None
